@@ -122,10 +122,17 @@ def add_new_activation_tensor(
   Returns:
     The index of the new tensor in the subgraph.
   """
+  # Tensor names must stay unique, e.g. when a tensor gets two quantize ops
+  # for consumers that ask for different parameters.
+  existing_names = {tensor.name for tensor in subgraph.tensors}
+  unique_name, suffix = tensor_name, 0
+  while unique_name in existing_names:
+    suffix += 1
+    unique_name = tensor_name + b'_%d' % suffix
   new_tensor = schema_py_generated.TensorT()
   new_tensor.shape = shape
   new_tensor.type = tensor_type
-  new_tensor.name = tensor_name
+  new_tensor.name = unique_name
   new_tensor.buffer = 0
   new_tensor_id = len(subgraph.tensors)
   subgraph.tensors.append(new_tensor)
